@@ -100,4 +100,42 @@ ITEMS = [
         ],
         props=['C10'],
     ),
+    Item(id='obj_list', source='src/core.rs', locator='impl Obj / fn list',
+         ensures=[('wraps', 'r is Seq && r->Seq_0 is List && r->Seq_0->List_0@ == n@')], props=['C10']),
+    # slicing of every sequence kind goes through pythonic_slice_obj; the sub-slice taken afterwards can never be out of bounds
+    Item(
+        id='slice_seq', source='src/eval.rs', locator='fn slice_seq',
+        requires=[('rust_allocation_limit', 'seq_len_fits_isize(xr)')],
+        ensures=[
+            ('never_fails_for_machine_word_bounds', '(!(xr is Dict) && !(xr is Stream) && opt_obj_bound_ok(lo) && opt_obj_bound_ok(hi)) ==> r is Ok'),
+            ('list_slice_is_python_subrange', '(xr is List && r is Ok) ==> (r->Ok_0 is Seq && r->Ok_0->Seq_0 is List && r->Ok_0->Seq_0->List_0@ =~= xr->List_0@.subrange(py_slice(xr->List_0@.len() as int, opt_obj_bound(lo), opt_obj_bound(hi)).0, py_slice(xr->List_0@.len() as int, opt_obj_bound(lo), opt_obj_bound(hi)).1))'),
+            ('list_slice_has_python_length', '(xr is List && r is Ok) ==> (r->Ok_0 is Seq && r->Ok_0->Seq_0 is List && '
+             'r->Ok_0->Seq_0->List_0@.len() == py_slice(xr->List_0@.len() as int, opt_obj_bound(lo), opt_obj_bound(hi)).1 - py_slice(xr->List_0@.len() as int, opt_obj_bound(lo), opt_obj_bound(hi)).0)'),
+            ('vector_slice_is_python_subrange', '(xr is Vector && r is Ok) ==> (r->Ok_0 is Seq && r->Ok_0->Seq_0 is Vector && forall|k: int| 0 <= k < r->Ok_0->Seq_0->Vector_0@.len() ==> (#[trigger] r->Ok_0->Seq_0->Vector_0@[k])@ == xr->Vector_0@[py_slice(xr->Vector_0@.len() as int, opt_obj_bound(lo), opt_obj_bound(hi)).0 + k]@)'),
+            ('vector_slice_has_python_length', '(xr is Vector && r is Ok) ==> (r->Ok_0 is Seq && r->Ok_0->Seq_0 is Vector && '
+             'r->Ok_0->Seq_0->Vector_0@.len() == py_slice(xr->Vector_0@.len() as int, opt_obj_bound(lo), opt_obj_bound(hi)).1 - py_slice(xr->Vector_0@.len() as int, opt_obj_bound(lo), opt_obj_bound(hi)).0)'),
+            ('bytes_slice_is_python_subrange', '(xr is Bytes && r is Ok) ==> (r->Ok_0 is Seq && r->Ok_0->Seq_0 is Bytes && r->Ok_0->Seq_0->Bytes_0@ =~= xr->Bytes_0@.subrange(py_slice(xr->Bytes_0@.len() as int, opt_obj_bound(lo), opt_obj_bound(hi)).0, py_slice(xr->Bytes_0@.len() as int, opt_obj_bound(lo), opt_obj_bound(hi)).1))'),
+            ('bytes_slice_has_python_length', '(xr is Bytes && r is Ok) ==> (r->Ok_0 is Seq && r->Ok_0->Seq_0 is Bytes && '
+             'r->Ok_0->Seq_0->Bytes_0@.len() == py_slice(xr->Bytes_0@.len() as int, opt_obj_bound(lo), opt_obj_bound(hi)).1 - py_slice(xr->Bytes_0@.len() as int, opt_obj_bound(lo), opt_obj_bound(hi)).0)'),
+            ('dict_cannot_be_sliced', 'xr is Dict ==> (r is Err && err_class(r->Err_0) == ErrClass::Type)'),
+        ],
+        props=['C10'],
+    ),
+    # the interpreter's `s[i]`: every linear kind addresses through pythonic_index (so reads agree with Python on every kind)
+    Item(
+        id='index', source='src/eval.rs', locator='fn index',
+        requires=[('rust_allocation_limit', 'xr is Seq ==> seq_len_fits_isize(xr->Seq_0)'),
+                  ('struct_ids_are_unique_so_field_accessors_fit_their_instances', 'field_access_wf(xr, ir)')],
+        ensures=[
+            ('list_element_at_python_index', '(xr is Seq && xr->Seq_0 is List) ==> (match (if obj_int(ir) is Some { py_index(xr->Seq_0->List_0@.len() as int, obj_int(ir)->Some_0) } else { None }) '
+             '{ Some(k) => r == Ok::<Obj, NErr>(xr->Seq_0->List_0@[k]), None => r is Err && err_class(r->Err_0) == ErrClass::Index })'),
+            ('bytes_element_at_python_index', '(xr is Seq && xr->Seq_0 is Bytes) ==> (match (if obj_int(ir) is Some { py_index(xr->Seq_0->Bytes_0@.len() as int, obj_int(ir)->Some_0) } else { None }) '
+             '{ Some(k) => r == Ok::<Obj, NErr>(Obj::Num(NNum::Int(NInt::Small(xr->Seq_0->Bytes_0@[k] as i64)))), None => r is Err && err_class(r->Err_0) == ErrClass::Index })'),
+            ('vector_element_at_python_index', '(xr is Seq && xr->Seq_0 is Vector) ==> (match (if obj_int(ir) is Some { py_index(xr->Seq_0->Vector_0@.len() as int, obj_int(ir)->Some_0) } else { None }) '
+             '{ Some(k) => r is Ok && r->Ok_0 is Num && r->Ok_0->Num_0@ =~= xr->Seq_0->Vector_0@[k]@, None => r is Err && err_class(r->Err_0) == ErrClass::Index })'),
+            ('string_ok_iff_python_index_defined', '(xr is Seq && xr->Seq_0 is String) ==> (r is Ok <==> (obj_int(ir) is Some && py_index(str_bytes(*xr->Seq_0->String_0).len() as int, obj_int(ir)->Some_0) is Some))'),
+            ('stream_index_must_be_a_machine_word_integer', '(xr is Seq && xr->Seq_0 is Stream && !(obj_int(ir) is Some && isize::MIN <= obj_int(ir)->Some_0 <= isize::MAX)) ==> (r is Err && err_class(r->Err_0) == ErrClass::Index)'),
+        ],
+        props=['C10'],
+    ),
 ]
